@@ -865,8 +865,21 @@ def parse_digests(r):
     return agree, where, safe, raw, thm, dig
 
 
+def drop_repaired_from_known(ctx):
+    """findings/C04.known.json is authoritative for this property: a signature listed there as "fixed" must be reported
+    as a VIOLATION if it ever comes back, even while a stale "known" copy of it sits in the merged known_findings.json"""
+    try:
+        with open(os.path.join(core.VERIF, "findings", "C04.known.json")) as f:
+            fixed = {k["signature"] for k in json.load(f).get("findings", []) if k.get("status") == "fixed"}
+    except (OSError, ValueError):
+        fixed = set()
+    ctx.known = [k for k in ctx.known if k.get("signature") not in fixed or k.get("status") == "fixed"]
+    ctx.coverage["fixed_findings_watched"] = sorted(fixed)
+
+
 def run(ctx: core.Ctx):
     from translate import c04_summary
+    drop_repaired_from_known(ctx)
     # ---- T1
     t1_ok = True
     entries = []
